@@ -63,14 +63,15 @@ func (Engine) Describe() simcore.Description {
 	return simcore.Description{
 		Real: []string{"full OsmosisApp behind the real BaseApp entry points: InitChain, FinalizeBlock (pre-blocker, begin-blocker incl. epochs/mint/incentives/txfees/superfluid hooks, tx decoding, ante handler with signature verification, fee deduction and sequence numbers, message router, protorev post handler, end-blocker), Commit (IAVL), CheckTx and Simulate; app.ExportAppStateAndValidators and module-manager genesis export/import; SDK gas metering; secp256k1 SIGN_MODE_DIRECT transactions"},
 		Stub: []string{"CometBFT consensus and p2p (the simulator is the proposer: it chooses height, header time, tx order, proposer and last-commit votes)", "wall clock (header time only)"},
-		Rule: "one run = 4-6 funded accounts, 2-3 validators, shortened epochs (hour 30s, day 100s, week 450s; mint/incentives/superfluid tick on 'day'), 15-40 blocks of 0-4 signed transactions (bank, gamm, poolmanager incl. multi-hop and split routes, concentrated liquidity, lockup, incentives, tokenfactory, staking/distribution, superfluid) with plan-drawn gas limits (generous, or a fraction of the simulated gas use so that out-of-gas hits inside ante or message execution), fees (sufficient / one short / none / wrong denom), sequence numbers (right / future / replayed), occasional second message that fails, irregular header times crossing epoch boundaries, missing validator votes, bursts of empty blocks to the next height divisible by 120. Replica A is the reference and additionally serves Simulate calls; B runs the same stream on an independent application object and disk and additionally sees every tx in CheckTx; C (odd runs) restarts between blocks and crashes between FinalizeBlock and Commit at seeded points; D (most odd runs) is initialised from A's export at a seeded block and then fed the same suffix. Every Go map iteration inside the application draws its own order on every replica.",
+		Rule: "one run = 4-6 funded accounts, 2-3 validators, shortened epochs (hour 30s, day 100s, week 450s; mint/incentives/superfluid tick on 'day'), 15-40 blocks of 0-4 signed transactions (bank, gamm, poolmanager incl. multi-hop and split routes, concentrated liquidity, lockup, incentives, tokenfactory, staking/distribution, superfluid) with plan-drawn gas limits (generous, or a fraction of the simulated gas use so that out-of-gas hits inside ante or message execution), fees (sufficient / one short / none / wrong denom), sequence numbers (right / future / replayed), occasional second message that fails, irregular header times crossing epoch boundaries, missing validator votes, bursts of empty blocks to the next height divisible by 120. Replica A is the reference and additionally serves Simulate calls; B runs the same stream on an independent application object and disk and additionally sees every tx in CheckTx; C (odd runs) restarts between blocks and crashes between FinalizeBlock and Commit at seeded points; D (most odd runs) is initialised from A's export at a seeded block and then fed the same suffix. Half of the runs list pool 1's shares as a superfluid asset; 30% let the mint module reduce its provisions every 3 epochs; swaps through the next, not yet existing pool id probe the in-memory pool-route cache. Every Go map iteration inside the application draws its own order on every replica.",
 		Assumptions: []string{
-			"Compared between A, B and C after every block: app hash; per transaction code, codespace, data, gas wanted, gas used, events (type, attribute keys and values, order). Not compared: the log string (CometBFT declares it non-deterministic; BaseApp puts a Go stack trace with goroutine ids and pointers into it for recovered panics), begin/end-block events and validator updates (the property speaks of committed state and of per-transaction results; differences there are counted under other_counters info/* instead).",
-			"Compared between A and the replica D forked from A's export: per module, the canonicalised JSON (object keys sorted, arrays in order) of D's export right after InitChain and of A's export at the fork height; per transaction of the common suffix code, codespace, data and events; per module the exports of both at the end of the run. Not compared between A and D: app hash (the IAVL tree shape and node versions depend on insertion history, which an import does not preserve) and gas (gas is charged per raw store access; import does not preserve store entries that are not part of any module's genesis, e.g. the wasm TX counter, staking historical info, bank supply offsets); a suffix transaction that runs out of gas on either side ends the A/D comparison of that run (counted, not judged).",
-			"Export fields excluded from the A/D comparison, each because InitGenesis overwrites it from the import context by design: epochs.epochs[].current_epoch_start_height (x/epochs AddEpochInfo sets it to ctx.BlockHeight() for every imported epoch); protorev.cyclic_arb_tracker.height_accounting_starts_from only when the exported value is 0 (x/protorev InitGenesis treats 0 as 'unset' and stores ctx.BlockHeight(); a chain started at height 1 runs InitChain at height 0 and therefore stores 0); ibc.client_genesis.clients[09-localhost].client_state.latest_height right after import only (ibc-go 02-client InitGenesis re-creates the localhost client at the context height; the begin-blocker rewrites it every block).",
+			"Compared between A, B and C after every block: app hash; per transaction code, codespace, data, gas wanted, gas used, events (type, attribute keys and values, order). Not compared: the log string (CometBFT declares it non-deterministic; BaseApp puts a Go stack trace with goroutine ids and pointers into it for recovered panics), begin/end-block events and validator updates (the property speaks of committed state and of per-transaction results; differences there are counted under other_counters info/block-events-differ and info/validator-updates-differ instead).",
+			"Compared between A and the replica D forked from A's export: (1) D must accept the export, first with default flags, then with --x-crisis-skip-assert-invariants; (2) per module, the canonicalised JSON (object keys sorted, arrays in order; a pure permutation of an array is reported once as <order>) of D's export right after InitChain and of A's export at the fork height; (3) three keeper queries over state that no module's genesis carries faithfully (found by diffing the raw stores of A and D): protorev's pool for a denom pair, pool-incentives' pool for a no-lock gauge, bank supply with offsets; (4) per transaction of the common suffix code, codespace, data and events; (5) per module the exports of both at the end of the run. When (2) or (3) shows that the import was not faithful in a way that can steer execution, (4) and (5) are skipped for that run (their premise is gone). Not compared between A and D: app hash (IAVL tree shape and node versions depend on insertion history, which an import does not preserve) and gas (charged per raw store access; an import does not preserve store entries outside any module's genesis, e.g. the wasm TX counter, staking historical info); a suffix transaction that runs out of gas on one side only ends the A/D comparison of that run (counted, not judged).",
+			"Export fields excluded from the A/D comparison, each because InitGenesis overwrites it from the import context by design: epochs.epochs[].current_epoch_start_height (x/epochs AddEpochInfo sets it to ctx.BlockHeight() for every imported epoch) - excluded only while superfluid has neither assets nor intermediary accounts, because x/superfluid's begin-blocker keys its epoch-start routine on that field; protorev.cyclic_arb_tracker.{height_accounting_starts_from,cyclic_arb} only when the exported start height is 0 (x/protorev InitGenesis treats 0/empty as 'unset' and re-bases the accounting at the import height; a chain started at height 1 runs InitChain at height 0 and therefore stores 0); ibc.client_genesis.clients[09-localhost].client_state.latest_height right after import only (ibc-go 02-client InitGenesis re-creates the localhost client at the context height; the begin-blocker rewrites it every block).",
 			"The genesis_time of the chain restarted from the export is the header time of the last exported block (fields that InitGenesis derives from ctx.BlockTime() therefore coincide; a later genesis_time is a different experiment).",
-			"Whole-application export is run on a fresh application object opened over the replica's disk (as `osmosisd export` does in a fresh process). The 08-wasm light-client module of ibc-go keeps its store handle in a package-level variable bound to the application object built last in the process, so exporting from an older object panics; that is an artefact of several application objects per process, not of the application wiring.",
-			"A mismatch between replicas is reported after the plan has been re-executed 3 more times on fresh replicas; the report states how often it came back. Replaying a recorded violation may take up to 6 executions to show an order-dependent mismatch again.",
+			"Whole-application export is run on a fresh application object opened over the replica's disk (as `osmosisd export` does in a fresh process). The 08-wasm light-client module of ibc-go keeps its store handle in a package-level variable bound to the application object built last in the process, so exporting from an older object panics (inside a goroutine of the module manager, i.e. unrecoverably); that is an artefact of several application objects per process, not of the application wiring.",
+			"The incentives parameter min_value_for_distribution, which the module's default genesis leaves empty (then no lock-based gauge ever pays), is set to the module's documented default of 10000uosmo.",
+			"A mismatch is reported after the plan has been re-executed 3 more times on fresh replicas; the report states how often it came back (a dependence on map iteration order shows only with some probability per execution). Replaying a recorded violation executes the plan up to 10 times until it shows again.",
 		},
 	}
 }
